@@ -106,4 +106,23 @@ PROPS = {
             "selectors like 'a.*.b' (option-construction panic) and empty selectors are outside the property's domain",
         ],
     },
+    "C03": {
+        "pkg": "c03",
+        "stages": [{"run": "^TestProp$", "quick": (5000, 4), "thorough": (80000, 16)}],
+        "technique": "property-based testing (rapid): descriptor-driven message generator, split into path/query/body by the harness, round-trip oracle (proto.Equal) plus protojson-as-referee for invalid and non-canonical URL text",
+        "level_text": "Generated-input search over a rich schema (every scalar kind, enum, bytes, repeated, nested, oneof, wrappers, Timestamp/Duration/FieldMask, maps, "
+                      "repeated messages) x rule shapes x codecs x gzip x read partitions; positive law: handler message equals the generated message; negative law: "
+                      "text protojson rejects must be rejected, text it accepts must be delivered as the same value. Exploration only.",
+        "level_note": "Trusts protojson/proto as encoders and referee; NaN excluded; +-Inf only in body-borne fields; empty body sub-message presence is normalised.",
+        "rule": "rapid draws a rule (verb x 0-2 path variables on scalar/enum/bytes/wrapper/Duration fields, top-level or nested, with sub-patterns x body "
+                "'*'/none/body_leaf/nest) and a message M expressible under it (boundary-biased values); the harness splits M into path text, query "
+                "(proto or JSON key spelling per key, repeated keys in order, key groups shuffled, base64 std/url x padded/unpadded, enum name or number) and a "
+                "JSON / protobuf / octet-stream body, optionally gzip, delivered through a scripted fragmenting reader. A quarter of the cases replace one singular "
+                "URL-borne leaf by an invalid/non-canonical text. Non-trivial = negative case, or every channel the rule uses is populated; distinct = (body "
+                "selector, #vars, content type, gzip, negative family, set of query keys).",
+        "assumptions": [
+            "string-valued wrappers that are empty or themselves quoted, empty BytesValue and empty FieldMask are sent JSON-quoted (the bare form is ambiguous)",
+            "larking may reject text that protojson accepts (e.g. '1.0' for an integer); it may not deliver a different value",
+        ],
+    },
 }
